@@ -503,6 +503,24 @@ Fixpoint erase (n : node) : node :=
   end.
 
 (* ------------------------------------------------------------------------------------ *)
+(* one search object used for several fits (NonLinearSearch.fit):
+     self.paths.model = model ; self.paths.unique_tag = self.unique_tag
+   both assignments go through IdentifierField.__set__, which drops the cached identifier.
+   The state that survives between fits is the tag held by the paths object. *)
+(* ------------------------------------------------------------------------------------ *)
+Record paths_state := mkpaths { ptag : option string }.
+(* the tag the paths hold after the assignment in fit (rule read from the source: Gen.fit_tag_from_search) *)
+Definition fit_step (st : paths_state) (search_tag : option string) : paths_state :=
+  if fit_tag_from_search then mkpaths search_tag
+  else mkpaths (match ptag st with Some t => Some t | None => search_tag end).
+(* what each fit of a history describes: (model, the search's unique_tag at that fit) *)
+Fixpoint run_history (s : node) (st : paths_state) (h : list (node * option string)) : list obj :=
+  match h with
+  | [] => []
+  | (m, t) :: r => let st' := fit_step st t in fit_obj s m (ptag st') :: run_history s st' r
+  end.
+
+(* ------------------------------------------------------------------------------------ *)
 (* correspondence cases                                                                  *)
 (* ------------------------------------------------------------------------------------ *)
 Fixpoint str_table (t : list (float * string)) (f : float) : string :=
@@ -524,7 +542,10 @@ Inductive case :=
 (* reload through JSON: raised, or the reloaded live object has the predicted shape *)
 | CReload (t : node) (raised : bool) (live : obj)
 (* the float branch alone: value -> rounded value (None = ValueError) *)
-| CRound (v : float) (r : option float).
+| CRound (v : float) (r : option float)
+(* one search object fitted several times: what each fit's paths described, from the tag the paths held before *)
+| CHistory (tbl : list (float * string)) (search : node) (initial_tag : option string)
+           (steps : list (node * option string)) (hash_lists : list (list string)).
 
 Definition check_case (c : case) : bool :=
   match c with
@@ -542,4 +563,11 @@ Definition check_case (c : case) : bool :=
       end
   | CRound v r =>
       ofloat_eqb (if float_raises v then None else Some (round8 v)) r
+  | CHistory tbl s t0 steps hls =>
+      (fix go (l : list obj) (m : list (list string)) : bool :=
+         match l, m with
+         | [], [] => true
+         | o :: l', hl :: m' => slist_eqb (tokens (str_table tbl) o) hl && go l' m'
+         | _, _ => false
+         end) (run_history s (mkpaths t0) steps) hls
   end.
